@@ -75,7 +75,12 @@ Notify(d, v) ==
     /\ undeclAt' = IF d = "t" /\ v # 4 THEN ADefined(ver') ELSE undeclAt
     /\ published' = [published EXCEPT ![d] = Findings(d, ver', tValid', undeclAt') \ EffectiveDisabled(cfg)]
     /\ UNCHANGED cfg
-Next == \E d \in Docs : \E v \in Versions[d] : Notify(d, v)
+\* didClose(d) changes none of these variables (the index keeps the document's records, nothing is published): it is a
+\* STUTTERING step of this specification.  The replayer therefore also runs every history with a didClose inserted after
+\* each notification that is followed by a notification for the other document; the next Notify(d, v) is then a didOpen
+\* again and must publish exactly what a didChange would.
+Close(d) == UNCHANGED vars
+Next == \E d \in Docs : (\E v \in Versions[d] : Notify(d, v)) \/ Close(d)
 Spec == Init /\ [][Next]_vars
 
 ----------------------------------------------------------------------------
